@@ -1,6 +1,5 @@
 """JavaScript execution context."""
 
-import json
 import math
 import random
 import time
@@ -23,7 +22,7 @@ from .values import (
     to_number,
 )
 from .errors import JSError, MemoryLimitError, TimeLimitError
-from .jsonlib import json_parse
+from .jsonlib import json_parse, json_stringify
 
 
 class Context:
@@ -734,42 +733,8 @@ class Context:
             return json_parse(to_string(args[0] if args else UNDEFINED))
 
         def stringify_fn(*args):
-            value = args[0] if args else UNDEFINED
-
-            # Convert JS value to Python for json.dumps, handling undefined specially
-            def to_json_value(v):
-                if v is UNDEFINED:
-                    return None  # Will be filtered out for object properties
-                if v is NULL:
-                    return None
-                if isinstance(v, bool):
-                    return v
-                if isinstance(v, (int, float)):
-                    return v
-                if isinstance(v, str):
-                    return v
-                if isinstance(v, JSArray):
-                    # For arrays, undefined becomes null
-                    return [
-                        None if elem is UNDEFINED else to_json_value(elem)
-                        for elem in v._elements
-                    ]
-                if isinstance(v, JSObject):
-                    # For objects, skip undefined values
-                    result = {}
-                    for k, val in v._properties.items():
-                        if val is not UNDEFINED:
-                            result[k] = to_json_value(val)
-                    return result
-                return None
-
-            py_value = to_json_value(value)
-            try:
-                return json.dumps(py_value, separators=(",", ":"))
-            except (TypeError, ValueError) as e:
-                from .errors import JSTypeError
-
-                raise JSTypeError(f"JSON.stringify: {e}")
+            text = json_stringify(args[0] if args else UNDEFINED)
+            return UNDEFINED if text is None else text
 
         json_obj.set("parse", parse_fn)
         json_obj.set("stringify", stringify_fn)
